@@ -336,4 +336,96 @@ func c09Gen(g *Gen) {
 			big("prod-random", head+[]string{"", "é", "q"}[r.Intn(3)], unit, reps, ru+[]string{"", "z", "\xff"}[r.Intn(3)])
 		}
 	}
+	// ---- 8. sequences of messages through ONE long-lived parser instance (kind 2) ----
+	// (the per-message result and accounting must not depend on what the parser has seen before:
+	// the same malformed / over-long / valid message repeated, interleaved with others)
+	seqBig := func(cls string, cfg c09Cfg, head, unit string, reps int, tail string, msgs [][]byte) {
+		// message table: index 0 = head ++ unit^reps ++ tail, then the distinct messages
+		table := [][]byte{[]byte(head), []byte(unit), []byte(tail)}
+		z := []int64{int64(cfg.maxMsg), int64(cfg.maxRec), pool(), int64(reps)}
+		index := map[string]int{}
+		for _, m := range msgs {
+			if m == nil {
+				z = append(z, 0)
+				continue
+			}
+			k, ok := index[string(m)]
+			if !ok {
+				table = append(table, m)
+				k = len(table) - 3
+				index[string(m)] = k
+			}
+			z = append(z, int64(k))
+		}
+		g.Count(cls)
+		g.Case(2, table, z)
+	}
+	seq := func(cls string, cfg c09Cfg, msgs [][]byte) { seqBig(cls, cfg, "", "", 0, "", msgs) }
+	scfg := c09Small[0]
+	valid := [][]byte{
+		c09Line("<13>1", c09StdToks, []byte("Something")),
+		c09Line("<5>1", c09StdToks, []byte("Something")),
+		c09Line("<191>1", c09StdToks, []byte("Something else\nwith a second line")),
+		c09Line("<0>1", c09TinyToks, []byte("0123456789012345678901234567890")),
+	}
+	over := [][]byte{
+		c09Line("<13>1", c09TinyToks, append(asciiFill(scfg.maxMsg-1), []byte("\u4e16zz")...)),
+		c09Line("<14>1", c09TinyToks, asciiFill(scfg.maxMsg+1)),
+		c09Line("<15>1", c09StdToks, bytes.Repeat([]byte("\U0001f600"), scfg.maxMsg/4+3)),
+	}
+	malformed := [][]byte{
+		[]byte(""), []byte("<13>1 t h a p s e m"), // shorter than 32
+		[]byte("x13>1 2019-08-15T15:50:46.866915+03:00 local1 my-app1 123 fn1 - Something"),  // no '<'
+		[]byte("<13>1_2019-08-15T15:50:46.866915+03:00_local1_my-app1_123_fn1_-_Something"),  // no space at all
+		[]byte("< 1 2019-08-15T15:50:46.866915+03:00 local1 my-app1 123 fn1 - Something"),    // first token "<"
+		[]byte("<13>2 2019-08-15T15:50:46.866915+03:00 local1 my-app1 123 fn1 - Something"),  // version
+		[]byte("<1x3>1 2019-08-15T15:50:46.866915+03:00 local1 my-app1 123 fn1 - Something"), // pri value
+		[]byte("<192>1 2019-08-15T15:50:46.866915+03:00 local1 my-app1 123 fn1 - Something"), // facility
+		[]byte("<-8>1 2019-08-15T15:50:46.866915+03:00 local1 my-app1 123 fn1 - Something"),  // negative
+		[]byte("<13>1 2019-08-15T15:50:46.866915+03:00"),                                     // missing fields
+		[]byte("<13>1 2019-08-15T15:50:46.866915+03:00 local1"),
+		[]byte("<13>1 2019-08-15T15:50:46.866915+03:00 local1 my-app1"),
+		[]byte("<13>1 2019-08-15T15:50:46.866915+03:00 local1 my-app1 123"),
+		[]byte("<13>1 2019-08-15T15:50:46.866915+03:00 local1 my-app1 123 fn1"),
+		[]byte("<13>1 2019-08-15T15:50:46.866915+03:00 local1 my-app1 123 fn1 -"),
+	}
+	all := append(append(append([][]byte{}, valid...), over...), malformed...)
+	for _, x := range all {
+		seq("seq-repeat", scfg, [][]byte{x, x})
+		seq("seq-repeat", scfg, [][]byte{x, x, x, x})
+		seq("seq-repeat", scfg, [][]byte{valid[0], x, x, valid[1], x, valid[0], valid[0]})
+	}
+	for _, x := range malformed {
+		for _, y := range all {
+			seq("seq-pairs", scfg, [][]byte{x, y, x, y, y, x})
+		}
+	}
+	for i := 0; i < g.Pick(300, 6000); i++ {
+		n := r.Range(2, 12)
+		var msgs [][]byte
+		for len(msgs) < n {
+			switch {
+			case len(msgs) > 0 && r.Chance(2, 5):
+				msgs = append(msgs, msgs[r.Intn(len(msgs))]) // repeat an earlier message of this sequence
+			case r.Chance(1, 5):
+				msgs = append(msgs, c09Line(fmt.Sprintf("<%d>1", r.Intn(230)), c09StdToks, []byte(tok()+" "+tok())))
+			default:
+				msgs = append(msgs, all[r.Intn(len(all))])
+			}
+		}
+		seq("seq-random", c09Small[r.Intn(2)], msgs)
+	}
+	for i := 0; i < g.Pick(1, 20); i++ {
+		var msgs [][]byte
+		for len(msgs) < 300 {
+			x := all[r.Intn(len(all))]
+			for k := r.Range(1, 4); k > 0; k-- {
+				msgs = append(msgs, x)
+			}
+		}
+		seq("seq-long", scfg, msgs)
+	}
+	// production limits: an over-long message twice, a valid one in between
+	// production limits: an over-long message (index 0 of the table) repeated, valid and malformed ones in between
+	seqBig("seq-prod", c09Prod, "<13>1 t h a p s e ", "a", mm-1, "\u4e16zz", [][]byte{nil, valid[0], nil, malformed[4], malformed[4], nil})
 }
